@@ -666,9 +666,12 @@ def evaluate__idiv_operator(self: XPathToken, context: ta.ContextType = None) ->
         raise self.error('XPST0005')
 
     try:
-        if math.isinf(op1):
+        if isinstance(op1, int) and isinstance(op2, int):
+            pass  # integers of any size, also out of the range of xs:double
+        elif not isinstance(op1, int) and math.isinf(op1):
             raise self.error('FOAR0001' if op2 == 0 else 'FOAR0002')
-        elif math.isnan(op1) or math.isnan(op2):
+        elif not isinstance(op1, int) and math.isnan(op1) or \
+                not isinstance(op2, int) and math.isnan(op2):
             raise self.error('FOAR0002')
     except TypeError as err:
         if isinstance(context, XPathSchemaContext):
@@ -681,7 +684,7 @@ def evaluate__idiv_operator(self: XPathToken, context: ta.ContextType = None) ->
         if isinstance(context, XPathSchemaContext):
             return 1
         raise self.error('FOAR0001') from None
-    except InvalidOperation as err:
+    except (InvalidOperation, OverflowError) as err:
         if isinstance(context, XPathSchemaContext):
             return 1
         raise self.error('FOAR0002', err) from None
